@@ -13,8 +13,19 @@ fn nats(v: &[usize]) -> String {
     format!("[{}]", v.iter().map(|x| format!("{}%nat", x)).collect::<Vec<_>>().join(";"))
 }
 
+/// half of the immutable and mutable keys carry a value of the maximum size (1000 bytes): answers that carry it together with
+/// a full node list are the largest datagrams of the protocol
+fn pad(mut v: Vec<u8>, key: usize) -> Vec<u8> {
+    if key % 4 <= 1 && (key / 4) % 2 == 0 {
+        while v.len() < 1000 {
+            v.push(b'a' + (v.len() % 26) as u8);
+        }
+    }
+    v
+}
+
 fn value_of(key: usize) -> Vec<u8> {
-    format!("stored value for key {}", key).into_bytes()
+    pad(format!("stored value for key {}", key).into_bytes(), key)
 }
 
 /// the data kind of a key: 0 immutable, 1 mutable (salted), 2 announce_peer, 3 announce_signed_peer
@@ -52,7 +63,7 @@ fn put_request(net: &Net, w: usize, key: usize, seq: i64) -> PutRequestSpecific 
     match kind_of(key) {
         0 => PutRequestSpecific::PutImmutable(PutImmutableRequestArguments { target, v: value_of(key).into() }),
         1 => {
-            let v = format!("mutable value {} seq {}", key, seq).into_bytes();
+            let v = pad(format!("mutable value {} seq {}", key, seq).into_bytes(), key);
             let item = MutableItem::new(&signer_of(key), &v, seq, Some(&salt_of(key)));
             PutRequestSpecific::PutMutable(PutMutableRequestArguments::from(item, None))
         }
@@ -217,7 +228,7 @@ impl GetRx {
             GetRx::Mt(rx) => {
                 let pk = signer_of(key).verifying_key().to_bytes();
                 while let Ok(it) = rx.try_recv() {
-                    let want = format!("mutable value {} seq {}", key, it.seq()).into_bytes();
+                    let want = pad(format!("mutable value {} seq {}", key, it.seq()).into_bytes(), key);
                     if *it.key() == pk && it.value() == &want[..] && it.seq() >= 1 && it.seq() < below_seq {
                         found = true;
                     }
